@@ -1,0 +1,11 @@
+//go:build verif
+
+package cache
+
+// This file is only built with the "verif" build tag. It exposes copyNoOpt to
+// the external verification harness (property C15).
+
+import "github.com/miekg/dns"
+
+// VerifCopyNoOpt returns copyNoOpt(m).
+func VerifCopyNoOpt(m *dns.Msg) *dns.Msg { return copyNoOpt(m) }
